@@ -18,7 +18,7 @@ import (
 )
 
 const (
-	MaxTasks  = 16
+	MaxTasks  = 64
 	MaxSteps  = 1 << 20
 	MaxEvents = 1 << 16
 
@@ -26,6 +26,7 @@ const (
 	stRunnable
 	stBlocked
 	stDone
+	stPolling // waits for a channel operation / select case to become possible: runnable, but of low priority
 )
 
 // Policy selects how the next task is chosen.
@@ -82,6 +83,13 @@ var (
 	seq       int64
 	serial    int64
 	yieldHit  [256]int32
+	// goroutines started by the program under simulation (Go): slots >= ninitial; owner is the initial
+	// task on whose behalf a spawned task runs (events are attributed to it)
+	ninitial  int
+	owner     [MaxTasks]int32
+	spawned   int
+	pollSpins int // consecutive decisions at which only polling tasks could run
+	seed0     uint64
 )
 
 //go:norace
@@ -109,6 +117,14 @@ func unpark(w *uint32) {
 }
 
 //go:norace
+func mix(a, b uint64) uint64 {
+	z := a ^ (b+1)*0x9e3779b97f4a7c15
+	z = (z ^ (z >> 30)) * 0xbf58476d1ce4e5b9
+	z = (z ^ (z >> 27)) * 0x94d049bb133111eb
+	return z ^ (z >> 31)
+}
+
+//go:norace
 func next64() uint64 {
 	rng += 0x9e3779b97f4a7c15
 	z := rng
@@ -127,6 +143,27 @@ func choose(cur int) int {
 		if tasks[i].status == stRunnable {
 			cand[n] = i
 			n++
+		}
+	}
+	// tasks that wait on a channel (polling) run when nothing else can, and now and then in between -
+	// decided by a hash of (seed, step), not by the PRNG stream, so that a replayed trace sees the same
+	// candidate sets
+	coin := mix(seed0, uint64(steps))%6 == 0
+	onlyPollers := false
+	if n == 0 || coin {
+		only := n == 0
+		onlyPollers = only
+		for i := 0; i < ntasks; i++ {
+			if tasks[i].status == stPolling {
+				cand[n] = i
+				n++
+			}
+		}
+		if only && n > 0 {
+			pollSpins++
+			if pollSpins > 20000 {
+				return -1 // every remaining task waits for a channel that nobody serves
+			}
 		}
 	}
 	if n == 0 {
@@ -155,6 +192,9 @@ func choose(cur int) int {
 				}
 			}
 		}
+	} else if onlyPollers {
+		// every task that can run waits for another one: whatever the policy, they take turns fairly
+		pick = cand[int(next64()%uint64(n))]
 	} else {
 		switch policy {
 		case PolRandom:
@@ -242,6 +282,23 @@ func switchTo(self, to int) {
 	}
 }
 
+// Poll is the yield point of a task that found no channel operation possible: it stays runnable, but
+// other tasks are preferred (see choose). It returns when the task is scheduled again; the caller
+// retries its operation.
+//
+//go:norace
+func Poll(site string) {
+	if !active || running < 0 {
+		return
+	}
+	self := running
+	tasks[self].status = stPolling
+	reschedule(self)
+	if tasks[self].status == stPolling {
+		tasks[self].status = stRunnable
+	}
+}
+
 //go:norace
 func finish(code int) {
 	if outcome == 0 {
@@ -258,6 +315,9 @@ func reschedule(self int) {
 	t := tasks
 	steps++
 	seq++
+	if t[self].status != stPolling {
+		pollSpins = 0
+	}
 	if steps > stepCap {
 		finish(3)
 		park(&t[self].wake) // never woken: the run is over
@@ -353,6 +413,9 @@ func Record(kind, a, b string, n int64) {
 	t := int32(-1)
 	if active {
 		t = int32(running)
+		if running >= 0 {
+			t = owner[running]
+		}
 	}
 	events[nevents] = Event{Seq: seq, Task: t, Kind: kind, A: a, B: b, N: n}
 	nevents++
@@ -370,13 +433,56 @@ func taskDone(self int) {
 		return
 	}
 	for i := 0; i < ntasks; i++ {
-		if tasks[i].status == stBlocked {
+		if tasks[i].status == stBlocked || tasks[i].status == stPolling {
 			finish(2)
 			return
 		}
 	}
 	finish(1)
 }
+
+// Owner returns the initial task on whose behalf the running task runs (itself for an initial task).
+//
+//go:norace
+func Owner() int {
+	if !active || running < 0 {
+		return -1
+	}
+	return int(owner[running])
+}
+
+//go:norace
+func spawnSlot() int {
+	if !active || running < 0 {
+		return -1
+	}
+	slot := -1
+	for i := ninitial; i < ntasks; i++ {
+		if tasks[i].status == stDone {
+			slot = i
+			break
+		}
+	}
+	if slot < 0 {
+		if ntasks >= MaxTasks {
+			return -1
+		}
+		slot = ntasks
+		ntasks++
+	}
+	tasks[slot].wake = 0
+	tasks[slot].status = stRunnable
+	tasks[slot].blocked = 0
+	tasks[slot].prio = int32(mix(seed0, uint64(steps)+7) % 1000)
+	owner[slot] = owner[running]
+	spawned++
+	return slot
+}
+
+// Spawned returns the number of goroutines the program started through Go in this run.
+//
+//go:norace
+func Spawned() int { return spawned }
 
 //go:norace
 func taskStart(self int) {
